@@ -96,7 +96,15 @@ fn compress_multiple(data: &[u8], flags: u8) -> Result<Vec<u8>> {
     } else if has_sparse {
         current_data = algorithms::sparse::compress(&current_data)?;
     } else if has_pkware {
-        current_data = algorithms::pkware::compress(&current_data)?;
+        let imploded = algorithms::pkware::compress(&current_data)?;
+        // pkware::compress hands the input back when it cannot encode it; inside a
+        // combination the method byte would then promise a PKWare stage that is not there
+        if !current_data.is_empty() && imploded == current_data {
+            return Err(Error::compression(
+                "PKWare stage cannot encode this input (larger than the encoder's buffer)",
+            ));
+        }
+        current_data = imploded;
     }
 
     Ok(current_data)
